@@ -532,6 +532,11 @@ func (b *Buffer) cleanup() {
 				defer func() {
 					// lock on the mutex, so that the timer removal and broadcast checking / performing is synced
 					verifAt("buffer.timer.tw1", b, 0)
+					// the buffer's mutex must be held while broadcasting, or the cleanup goroutine may miss it (if it
+					// has evaluated its predicate, but is yet to wait) - same lock order as said goroutine
+					b.mutex.Lock()
+					defer b.mutex.Unlock()
+
 					mutex.Lock()
 					defer mutex.Unlock()
 
